@@ -512,7 +512,17 @@ func checkSet(rs *ruleSet, nProbes int, extra []string, dir string, st *stats, w
 	targets := b.build()
 	names := probeNames(rng, rs, nProbes, extra)
 
-	findings := b.errs
+	// a rejected rule set: report at the most basic route(s) only (see below)
+	var findings []finding
+	minErr := 99
+	for _, f := range b.errs {
+		minErr = min(minErr, routeLevel(f.Case["target"].(string)))
+	}
+	for _, f := range b.errs {
+		if routeLevel(f.Case["target"].(string)) == minErr {
+			findings = append(findings, f)
+		}
+	}
 	seenKey := map[string]bool{}
 	for _, f := range findings {
 		seenKey[f.Key] = true
@@ -601,7 +611,7 @@ func checkSet(rs *ruleSet, nProbes int, extra []string, dir string, st *stats, w
 			firstGot = map[string]any{}
 		}
 		minLevel := 99
-		var pending []finding
+		var pending []mismatch
 		for ti, t := range targets {
 			exp, ok := outs[t.mask]
 			if !ok {
@@ -617,31 +627,7 @@ func checkSet(rs *ruleSet, nProbes int, extra []string, dir string, st *stats, w
 					firstGot[t.name] = got
 				}
 			}
-			var key, what string
-			switch {
-			case exp.Match && !got:
-				key = t.name + "-false-negative-" + exp.Winner
-				what = fmt.Sprintf("%s: name %q is described by a %s rule (allowed values %v) but was not matched", t.name, name, exp.Winner, exp.Allowed)
-			case !exp.Match && got:
-				nm := exp.NearMiss
-				if nm == "" {
-					nm = "unrelated"
-				}
-				key = t.name + "-false-positive-" + nm
-				what = fmt.Sprintf("%s: name %q is described by no rule but was matched (value %d, near miss class: %s)", t.name, name, v, nm)
-			case exp.Match && got && v != -1 && !exp.allows(v):
-				gt := "no-rule"
-				if r := ref.byVal[v]; r != nil {
-					gt = r.typ
-					if !r.describes(refNorm(name)) {
-						gt += "(not-describing)"
-					}
-				} else if v == decoyVal {
-					gt = "commented-out-rule"
-				}
-				key = t.name + "-wrong-value-want-" + exp.Winner + "-got-" + gt
-				what = fmt.Sprintf("%s: name %q must get the value of the %s match (one of %v) but got %d (a %s rule)", t.name, name, exp.Winner, exp.Allowed, v, gt)
-			}
+			key := mismatchKey(ref, t.name, name, exp, v, got)
 			if key != "" {
 				st.add("mismatches", 1)
 				lv := routeLevel(t.name)
@@ -650,19 +636,19 @@ func checkSet(rs *ruleSet, nProbes int, extra []string, dir string, st *stats, w
 					pending = pending[:0]
 				}
 				if lv == minLevel {
-					pending = append(pending, finding{Key: key, What: what, Case: map[string]any{
-						"set": rs, "rules_as_written": ruleTexts(rs), "target": t.name, "name": name, "normalised_name": refNorm(name),
-						"expected": exp, "got_match": got, "got_value": v,
-					}})
+					pending = append(pending, mismatch{key, t.name, exp, v, got})
 				}
 			}
 		}
 		// One defect shows on every route built on the broken code: attribute the
 		// mismatches of this probe to the most basic route(s) that exhibit one.
-		for _, f := range pending {
-			if !seenKey[f.Key] {
-				seenKey[f.Key] = true
-				findings = append(findings, f)
+		for _, m := range pending {
+			if !seenKey[m.key] {
+				seenKey[m.key] = true
+				findings = append(findings, finding{Key: m.key, What: m.describe(ref, name), Case: map[string]any{
+					"set": rs, "rules_as_written": ruleTexts(rs), "target": m.route, "name": name, "normalised_name": refNorm(name),
+					"expected": m.exp, "got_match": m.got, "got_value": m.v,
+				}})
 			}
 		}
 		if firstGot != nil {
@@ -678,6 +664,55 @@ func checkSet(rs *ruleSet, nProbes int, extra []string, dir string, st *stats, w
 		sample = map[string]any{"default_type": rs.Default, "rules_as_written": ruleTexts(rs), "probes(first few non-trivial)": sampleProbes, "routes": targetNames(targets), "probe_count": len(names)}
 	}
 	return findings, sample
+}
+
+type mismatch struct {
+	key, route string
+	exp        refOut
+	v          int
+	got        bool
+}
+
+// gotType names the type of the rule whose value was returned.
+func gotType(ref *refSet, name string, v int) string {
+	if r := ref.byVal[v]; r != nil {
+		if !r.describes(refNorm(name)) {
+			return r.typ + "(not-describing)"
+		}
+		return r.typ
+	}
+	if v == decoyVal {
+		return "commented-out-rule"
+	}
+	return "no-rule"
+}
+
+// mismatchKey returns "" if the observation is allowed by the reference,
+// else the class of the disagreement.
+func mismatchKey(ref *refSet, route, name string, exp refOut, v int, got bool) string {
+	switch {
+	case exp.Match && !got:
+		return route + "-false-negative-" + exp.Winner
+	case !exp.Match && got:
+		nm := exp.NearMiss
+		if nm != "nonboundary-suffix" && nm != "subdomain-of-full" {
+			nm = "other"
+		}
+		return route + "-false-positive-" + nm
+	case exp.Match && got && v != -1 && !exp.allows(v):
+		return route + "-wrong-value-want-" + exp.Winner + "-got-" + gotType(ref, name, v)
+	}
+	return ""
+}
+
+func (m mismatch) describe(ref *refSet, name string) string {
+	switch {
+	case m.exp.Match && !m.got:
+		return fmt.Sprintf("%s: name %q is described by a %s rule (allowed values %v) but was not matched", m.route, name, m.exp.Winner, m.exp.Allowed)
+	case !m.exp.Match && m.got:
+		return fmt.Sprintf("%s: name %q is described by no rule but was matched (value %d, near miss class: %q)", m.route, name, m.v, m.exp.NearMiss)
+	}
+	return fmt.Sprintf("%s: name %q must get the value of the %s match (one of %v) but got %d (a %s rule)", m.route, name, m.exp.Winner, m.exp.Allowed, m.v, gotType(ref, name, m.v))
 }
 
 // routeLevel orders the routes from the most basic code to the most composed.
@@ -729,7 +764,8 @@ func main() {
 	rep.Assume("generated rules and names are ASCII; lower-casing in the reference is ASCII lower-casing")
 	rep.Assume("empty patterns ('domain:.', 'keyword:.') and names with empty labels are outside the quantified space and not generated; unprefixed rules never contain ':'")
 
-	dir, err := os.MkdirTemp("", "c12-")
+	// rule files for the plugin routes; inside the driver's scratch dir if there is one
+	dir, err := os.MkdirTemp(os.Getenv("VERIF_TMP"), "c12-")
 	if err != nil {
 		fmt.Println("cannot create temp dir:", err)
 		os.Exit(3)
@@ -763,7 +799,7 @@ func main() {
 		rep.Finish()
 	}
 
-	nSets := rep.Pick(40000, 500000)
+	nSets := rep.Pick(24000, 800000)
 	nProbes := rep.Pick(150, 200)
 	master := rand.New(rand.NewSource(rep.Seed))
 	seeds := make([]int64, nSets)
@@ -775,13 +811,16 @@ func main() {
 	if workers > 16 {
 		workers = 16
 	}
-	type result struct {
-		idx      int
-		findings []finding
+	// per violation key: the witness from the rule set with the smallest index
+	// (deterministic whatever the goroutine schedule) and the number of sets showing it
+	type witness struct {
+		idx int
+		f   finding
+		n   int
 	}
 	var (
 		mu      sync.Mutex
-		results []result
+		best    = map[string]*witness{}
 		samples = map[int]any{}
 		wg      sync.WaitGroup
 		next    int
@@ -815,8 +854,15 @@ func main() {
 					fs, sample := checkSet(rs, nProbes, nil, wdir, st, i < 400 && sampleWorthy(rs))
 					if len(fs) > 0 || sample != nil {
 						mu.Lock()
-						if len(fs) > 0 {
-							results = append(results, result{i, fs})
+						for _, f := range fs {
+							w := best[f.Key]
+							if w == nil {
+								w = &witness{idx: i, f: f}
+								best[f.Key] = w
+							} else if i < w.idx {
+								w.idx, w.f = i, f
+							}
+							w.n++
 						}
 						if sample != nil {
 							samples[i] = sample
@@ -835,12 +881,21 @@ func main() {
 	wg.Wait()
 	cleanup()
 
-	// deterministic order of witnesses: by rule-set index
-	sort.Slice(results, func(i, j int) bool { return results[i].idx < results[j].idx })
-	for _, r := range results {
-		for _, f := range r.findings {
-			f.Case["set_index"] = r.idx
-			rep.Violation(f.Key, f.What, f.Case)
+	var ws []*witness
+	for _, w := range best {
+		ws = append(ws, w)
+	}
+	sort.Slice(ws, func(i, j int) bool {
+		if ws[i].idx != ws[j].idx {
+			return ws[i].idx < ws[j].idx
+		}
+		return ws[i].f.Key < ws[j].f.Key
+	})
+	for _, w := range ws {
+		w.f.Case["set_index"] = w.idx
+		w.f.Case["rule_sets_showing_this_key"] = w.n
+		for k := 0; k < w.n; k++ {
+			rep.Violation(w.f.Key, w.f.What, w.f.Case)
 		}
 	}
 	tot := map[string]int64{}
